@@ -27,7 +27,7 @@ ROUND4 = [
          "                models_dict[model_name].extend(loaded[memo_key])\n"),
     ]),
     ("child_names_reserved_by_setdefault", "child class names are put into the label table directly", [
-        (J + "models/base.py", "            gen.reserve_field_name(ptr.type.name)\n", "            gen._field_labels.setdefault(ptr.type.name, None)\n"),
+        (J + "models/base.py", "            gen.reserve_field_name(model.name)\n", "            gen._field_labels.setdefault(model.name, None)\n"),
     ]),
     ("labels_in_sorted_list", "the keys are sorted into a list before their labels are requested", [
         (J + "models/base.py", "        for key in sorted(gen.model.type):\n            gen.convert_field_name(key)\n",
